@@ -1176,9 +1176,11 @@ void c39f_case(Ctx& c, Rng& r) {
     cfg.cleanup_interval = seconds(1 + r.below(30));
     const unsigned n = 2 + static_cast<unsigned>(r.below(3));   // node 0 is the hub, 1..n-1 its peers
     std::vector<std::unique_ptr<Node>> nodes;
+    std::vector<Config> cfgs;
     for (unsigned i = 0; i < n; ++i) {
         Config ci = cfg;
         ci.identity_seed = static_cast<std::uint32_t>(r.next());
+        cfgs.push_back(ci);
         nodes.push_back(std::make_unique<Node>(fx::peer_id_n(60 + i, 0xC3), ci));
     }
     auto tick_all = [&] { for (auto& nd : nodes) nd->tick(); };
@@ -1213,6 +1215,20 @@ void c39f_case(Ctx& c, Rng& r) {
     }
     const auto nsteps = 6 + r.below(30);
     for (std::uint64_t s = 0; s < nsteps; ++s) {
+        if (n > 1 && r.chance(1, 8)) {
+            // a peer restarts (same identity, fresh process state) and the session is set up again by a full handshake; the hub
+            // keeps running.  From the handshake on both ends are on one key again, and stay so through the following rotations.
+            const unsigned i = 1 + static_cast<unsigned>(r.below(n - 1));
+            nodes[i] = std::make_unique<Node>(fx::peer_id_n(60 + i, 0xC3), cfgs[i]);
+            const auto wa = nodes[0]->generate_handshake_work(nodes[i]->id());
+            const auto wb = nodes[i]->generate_handshake_work(nodes[0]->id());
+            if (wa && wb && nodes[0]->perform_handshake(nodes[i]->id(), nodes[i]->public_identity(), *wb) && nodes[i]->perform_handshake(nodes[0]->id(), nodes[0]->public_identity(), *wa)) {
+                c.note("rotation.peer-restarts-with-re-handshake");
+                last_hub_key.erase(i);
+                compare("after-re-handshake", s);
+            } else { c.violation("harness:C39f:re-handshake-failed", "{}"); return; }
+            sig = hx::mix(sig, 77);
+        }
         const auto k = r.below(6);
         std::int64_t adv;
         if (k == 0) adv = iv * NS;                                                   // exactly one interval
